@@ -101,6 +101,11 @@ def _path_worker(task):
     """One path of one function/lemma from a decision prefix; returns the partial report (with .alts)."""
     kind, key, modnames, tier, pid, prefix = task
     try:
+        dl = float(os.environ.get("PYVC_POOL_DEADLINE", "0") or 0)
+        if dl and time.time() > dl:
+            # the pool's wall-clock budget is used up: queued paths are not explored (verdict: undecided, never a violation)
+            return (kind, key, {"function": key, "status": "undecided", "undecided_reason": "time budget of the pool exceeded (path not explored)", "obligations": [], "vcs": 0,
+                                "vcs_discharged": 0, "paths": 0, "alts": []})
         sys.setrecursionlimit(20000)
         contracts = V.load_contracts(modnames)
         if not getattr(_path_worker, "_kf", False):
@@ -154,6 +159,7 @@ def run_pool(jobs, nproc):
     meta = {(k, key): (modnames, tier, pid) for k, key, modnames, tier, pid in jobs}
     t_pool = time.time()
     FN_BUDGET_S = int(os.environ.get("PYVC_POOL_BUDGET_S", "1500"))
+    os.environ["PYVC_POOL_DEADLINE"] = str(t_pool + FN_BUDGET_S)  # inherited by the forked workers
     if todo:
         with mp.get_context("fork").Pool(max(1, nproc)) as pool:
             inflight = [pool.apply_async(_path_worker, (t,)) for t in todo]
